@@ -77,7 +77,7 @@ def c15(ctx):
             rep.ob("C15.R1", "key::%s::%s#%d" % (common.top_fn(F, fn).path, cal["name"], bi), ok,
                    "" if ok else "%s calls %s with a key that does not come from to_lowercase(): names differing only in letter case would be different variables on this path" % (fn.path, cal["def"]),
                    fn.loc(t["line"]), how="key <- to_lowercase(name)")
-    rep.floor("C15.R1", n, 8, "symbol-map key operations")
+    rep.floor("C15.R1", n, 5, "symbol-map key operations")
     # the three tables of one SymTable are only reached through Lookup (which folds): no direct key operation elsewhere
     for fn in F.all_bodies(tests=False):
         if fn.file.endswith("exec/sym_table.rs") or not fn.file.startswith("src/exec/"):
@@ -133,31 +133,36 @@ def c15(ctx):
                 else:
                     guard_ok, why = True, ""
         rep.ob("C15.R2", "unchanged-only-if-all-lowercase::" + short, guard_ok, why, fn.loc(), how="all(char::is_lowercase) over every field")
-        # (i)/(ii) folding branch
-        folds = [(b, bi, t) for b in bodies for bi, t in b.calls() if (callee_def(t) or "").endswith("<impl char>::to_lowercase")]
-        other_folds = [(b, bi, t) for b in bodies for bi, t in b.calls() if t["callee"].get("name") in ("to_ascii_lowercase", "make_ascii_lowercase") and "indirect" not in t["callee"]]
+        # (i)/(ii) folding branch: every string field flows, character by character, into char::to_lowercase (directly, through
+        # adaptor closures, or through a local helper), and nothing ASCII-only is used
+        helper_bodies = list(bodies)
+        seen_h = {b.path for b in bodies}
+        frontier = list(bodies)
+        for _ in range(3):
+            nxt = []
+            for b in frontier:
+                for bi, t in b.calls():
+                    h = F.fn(callee_def(t) or "")
+                    if h is not None and h.mir and h.path not in seen_h and not h.in_test_file() and t["callee"].get("trait") is None:
+                        for hb in F.with_closures(h):
+                            if hb.path not in seen_h:
+                                seen_h.add(hb.path)
+                                helper_bodies.append(hb)
+                                nxt.append(hb)
+            frontier = nxt
+        folds = [(b, bi, t) for b in helper_bodies for bi, t in b.calls() if (callee_def(t) or "").endswith("<impl char>::to_lowercase")]
+        other_folds = [(b, bi, t) for b in helper_bodies for bi, t in b.calls() if t["callee"].get("name") in ("to_ascii_lowercase", "make_ascii_lowercase") and "indirect" not in t["callee"]]
         news = [(b, bi, s) for b in bodies for bi, si, s in b.assigns() if isinstance(s["rv"].get("agg"), dict) and s["rv"]["agg"].get("variant") == "New"]
         ok = len(folds) >= 1 and not other_folds and len(news) == 1
         why = "" if ok else "the folding branch does not build Lowercased::New from char::to_lowercase (%d char folds, %d ASCII-only folds)" % (len(folds), len(other_folds))
         if ok:
             nb = news[0][0]
-            read = set()
-            top_new = nb
-            for b in F.with_closures(top_new):
-                from ..flow import rvalue_operands
-                for bi, si, s in b.assigns():
-                    for o in rvalue_operands(s["rv"]):
-                        p = op_place(o)
-                        if p is not None:
-                            for of, nm, _ in common.place_fields(p):
-                                if of == adt:
-                                    read.add(nm)
-            if not want <= read:
-                ok, why = False, "the folding branch folds fields %s of %s, not all of %s" % (sorted(read), short, sorted(want))
-            else:
-                # one char fold per string field (a Vec field is folded through a nested closure once)
-                if len(folds) < len(want):
-                    ok, why = False, "only %d of the %d string fields go through char::to_lowercase" % (len(folds), len(want))
+            folded = set()
+            for f_ in sorted(want):
+                if _field_reaches_fold(F, nb, adt, f_):
+                    folded.add(f_)
+            if not want <= folded:
+                ok, why = False, "the folding branch folds fields %s of %s with char::to_lowercase, not all of %s" % (sorted(folded), short, sorted(want))
         rep.ob("C15.R2", "folds-every-field::" + short, ok, why, fn.loc(), how="%s through char::to_lowercase" % sorted(want))
     rep.floor("C15.R2", n2, 3, "ToLowercase impls")
     # ---- R3
@@ -225,7 +230,7 @@ def case_and_compare(ctx):
             rep.ob("C15.R4", "case-function::%s::%s" % (common.top_fn(F, fn).path, nm), ok,
                    "" if ok else "%s classifies / converts letter case with %s: a non-ASCII letter is treated differently from its re-cased spelling" % (common.top_fn(F, fn).path, d),
                    fn.loc(t["line"]), how="Unicode " + nm)
-    rep.floor("C15.R4", n, 12, "case classifications / conversions")
+    rep.floor("C15.R4", n, 6, "case classifications / conversions")
     # ---- R5
     targets = [i for i, inst in enumerate(F.insts)
                if any(("<frontend::ast::%s as std::%s" % (nt, tr)) in inst.def_ for nt in NAME_TYPES for tr in ("cmp::PartialEq>", "hash::Hash>", "cmp::Ord>", "cmp::PartialOrd>"))]
@@ -258,4 +263,52 @@ def case_and_compare(ctx):
             rep.ob("C15.R5", "compares-names::%s::%s" % (common.top_fn(F, f).path, what.split(" as ")[0].rsplit("::", 1)[-1] + "::" + what.rsplit("::", 1)[-1]), why_ok is not None,
                    "" if why_ok else "%s reaches %s: it compares names by their raw spelling, so two mentions that differ only in letter case are different names here and the same name in the symbol table" % (f.path, what),
                    f.loc(), how=why_ok)
-    rep.floor("C15.R5", m, 10, "(caller, comparison) pairs")
+    rep.floor("C15.R5", m, 6, "(caller, comparison) pairs")
+
+
+
+def _field_reaches_fold(F, body, adt, field, depth=0):
+    """does a read of adt.field in `body` (or its closures) flow into char::to_lowercase, possibly through local helpers?"""
+    from ..flow import Labels, rvalue_operands
+    seeds = {}
+    for b in F.with_closures(body):
+        for bi, si, s in b.assigns():
+            rv = s["rv"]
+            places = []
+            if "ref" in rv:
+                places.append(rv["ref"])
+            for o in rvalue_operands(rv):
+                p = op_place(o)
+                if p is not None:
+                    places.append(p)
+            for p in places:
+                if any(of == adt and nm == field for of, nm, _ in common.place_fields(p)):
+                    seeds.setdefault((b.path, s["pl"]["l"]), set()).add("f")
+        for bi, t in b.calls():
+            for a in t["args"]:
+                p = op_place(a)
+                if p is not None and any(of == adt and nm == field for of, nm, _ in common.place_fields(p)):
+                    seeds.setdefault((b.path, t["dest"]["l"]), set()).add("f")
+    if not seeds:
+        return False
+    # labels are seeded per body; run from the outermost function that contains them so that closures are connected
+    top = common.top_fn(F, body)
+    return _labels_reach_fold(F, top, seeds, 0)
+
+
+def _labels_reach_fold(F, fn, seeds, depth):
+    from ..flow import Labels
+    lab = Labels(F, fn, seeds)
+    for b in F.with_closures(fn):
+        for bi, t in b.calls():
+            d = callee_def(t) or ""
+            labelled = [i for i, a in enumerate(t["args"]) if lab.op_labels(b, a)]
+            if not labelled:
+                continue
+            if d.endswith("<impl char>::to_lowercase"):
+                return True
+            h = F.fn(d)
+            if h is not None and h.mir and depth < 3 and t["callee"].get("trait") is None and not h.in_test_file():
+                if _labels_reach_fold(F, h, {(h.path, i + 1): {"f"} for i in labelled}, depth + 1):
+                    return True
+    return False
